@@ -244,7 +244,8 @@ class CallMixin:
                 exc = Obj("builtins.Exception", args=(f"from {name}",), name=f"exc@{name}")
                 self.effect("raise", node, fr, value=exc, implicit=True, from_call=name)
                 raise _Raise(exc, node)
-        model = self.opts.call_models.get(qual) or self.opts.call_models.get(name)
+        model = self.opts.call_models.get(qual) or self.opts.call_models.get(name) or (
+            self.opts.call_models.get(("method", method)) if method is not None else None)
         if model is not None:
             r = model(self, args, kwargs, node, fr)
             eff.data["result"] = r
@@ -482,6 +483,10 @@ class CallMixin:
                 v, _ = self.getattr_ref(o, None, n, node, fr)
                 return v
             if isinstance(n, str) and isinstance(o, Term):
+                k = Attr(o, n).key()
+                if k in self.heap or (self.types_of(o) and any(self.repo.field_ann(t, n)[0] or self.repo.find_method(t, n) for t in self.types_of(o) if t in self.repo.classes)):
+                    v, _ = self.getattr_ref(o, o, n, node, fr)
+                    return v
                 if len(args) == 3:
                     return App("getattr", (o, n, args[2]), fname="getattr")
                 return Attr(o, n)
